@@ -68,12 +68,13 @@ static std::string step_name(const Step& t) {
 
 static void run_step(int s, const Step& t) {
   const State& st = ST[s];
-  CUR_SIG = st.sig; CUR_OSIG = t.operand >= 0 ? ST[t.operand].sig : std::string();
+  CUR_SIG = st.sig; CUR_OSIG = t.operand >= 0 ? ST[t.operand].sig : std::string(); LAST_BAD = false; CUR_PIECES.clear(); CUR_LOST = -1; CUR_AFTER = -1;
   CUR_OP = t.kind == 'o' ? &OPS[t.idx] : 0; CUR_Q = t.kind == 'q' ? &QS[t.idx] : 0; CUR_CLS = st.cls; CUR_OCLS = t.operand >= 0 ? ST[t.operand].cls : -1;
+  LAZY_INPUT = [s, t]() { return input_json(s, step_name(t), t.operand); };
   if (t.kind == 's') {
     PD p(A::clone(*st.obj));
     count(CNT_TRANS);
-    terminal_layer(*p, st.cls, DOM() + "::(state)", input_json(s, "(observe)", -1));
+    terminal_layer(*p, st.cls, DOM() + "::(state)", LAZY);
     return;
   }
   PD p(A::clone(*st.obj));
@@ -86,23 +87,23 @@ static void run_step(int s, const Step& t) {
     std::string site = site_of(q.name);
     if (q.name.find(" mod ") != std::string::npos) site = DOM() + "::relation_with(Congruence)";
     else if (q.name.compare(0, 14, "relation_with(") == 0) site = DOM() + (std::string("pcrl").find(q.name[14]) != std::string::npos && q.name[15] == '(' ? "::relation_with(Generator)" : "::relation_with(Constraint)");
-    std::string inj = input_json(s, q.name, t.operand);
+    const std::string& inj = LAZY;
     judge_query(t.idx, got, st.cls, ocls, site, inj);
     // observing must not change the value of receiver and operand
-    int c2 = gamma_cls(*p, site, inj);
+    int c2 = A::same_repr(*p, *st.obj) ? st.cls : gamma_cls(*p, site, inj);
     if (!same_value(st.cls, c2)) viol(site, "value:changed-by-observer", "none", inj, cellstr(c2), cellstr(st.cls), witness_outside(st.cls, c2));
-    if (oc) { int c3 = gamma_cls(*oc, site, inj); if (!same_value(ocls, c3)) viol(site, "const-arg-changed", "none", inj, cellstr(c3), cellstr(ocls)); }
+    if (oc && !A::same_repr(*oc, *ST[t.operand].obj)) { int c3 = gamma_cls(*oc, site, inj); if (!same_value(ocls, c3)) viol(site, "const-arg-changed", "none", inj, cellstr(c3), cellstr(ocls)); }
     return;
   }
   const Op& op = OPS[t.idx];
-  std::string inj = input_json(s, op.name, t.operand);
+  const std::string& inj = LAZY;
   std::string ret; bool threw = false;
   try { ret = op.apply(*p, oc.get()); }
   catch (const std::exception& ex) { threw = true; ret = std::string("exception:") + ex.what(); }
   count(CNT_TRANS);
   if (threw) { TrigIn ti{&op, 0, st.cls, ocls, "unexpected-exception"}; viol(site_of(op.name), "unexpected-exception", trigger_for(ti), inj, ret, "no exception"); return; }
   check_op_result(st.cls, ocls, t.idx, *p, ret, inj, true);
-  if (oc) { int c3 = gamma_cls(*oc, site_of(op.name), inj); if (!same_value(ocls, c3)) viol(site_of(op.name), "const-arg-changed", "none", inj, cellstr(c3), cellstr(ocls)); }
+  if (oc && !A::same_repr(*oc, *ST[t.operand].obj)) { int c3 = gamma_cls(*oc, site_of(op.name), inj); if (!same_value(ocls, c3)) viol(site_of(op.name), "const-arg-changed", "none", inj, cellstr(c3), cellstr(ocls)); }
 }
 
 // ------------------------------------------------------------------ converting constructors
@@ -184,6 +185,7 @@ static void run_ctor(const Src& s, const CtorStep& t) {
   CUR_OP = 0; CUR_Q = 0; CUR_CLS = -1; CUR_OCLS = -1; CUR_SIG.clear(); CUR_OSIG.clear();
   std::string site = DOM() + "::" + DOM() + "(" + SKN[t.sk] + ")";
   std::string inj = J().str("shape", SHAPE_NAME).str("source_type", SKN[t.sk]).str("source", s.name).num("dim", n).str("complexity", CCN[t.cc]).done();
+  LAZY_INPUT = [inj]() { return inj; };
   USet exact; bool best = false; bool is_grid = false; Cell hullcell(n);
   PD r;
   count(CNT_TRANS);
@@ -228,7 +230,9 @@ static void run_ctor(const Src& s, const CtorStep& t) {
     }
   } catch (const std::exception& ex) { viol(site, "unexpected-exception", "none", inj, ex.what(), "an object"); return; }
   if ((int)r->space_dimension() != n) { viol(site, "constructor:space-dimension", "none", inj, std::to_string(r->space_dimension()), std::to_string(n)); return; }
+  LAST_BAD = false; CUR_PIECES.clear(); CUR_LOST = -1;
   int after = gamma_cls(*r, site, inj);
+  LAST_BAD = BAD_ENTRY; CUR_AFTER = after; CUR_CLS = after;
   count(CNT_CHECKS);
   std::vector<int> pieces; int want = -1;
   {
@@ -236,9 +240,10 @@ static void run_ctor(const Src& s, const CtorStep& t) {
     for (size_t i = 0; i < exact.size(); ++i) { int c = CL.classify(exact[i]); if (!cls_empty(c)) pieces.push_back(c); }
     if (CFG.c04 && best) { if (is_grid) want = CL.classify(alphaD(one(hullcell), n)); else { USet v; for (int c : pieces) v.push_back(CL[c]); want = CL.classify(alphaD(v, n)); } }
   }
+  CUR_PIECES = pieces;
   bool lost = false;
   for (size_t i = 0; i < pieces.size() && !lost; ++i) if (!cls_subset(pieces[i], after)) {
-    lost = true; TrigIn ti{0, 0, pieces[i], -1, "enclosure:result-loses-points"};
+    lost = true; CUR_LOST = pieces[i]; TrigIn ti{0, 0, pieces[i], -1, "enclosure:result-loses-points"};
     viol(site, "enclosure:result-loses-points", trigger_ctor(t.sk, t.cc, pieces[i], after), inj, cellstr(after), "superset of " + cellstr(pieces[i]), witness_outside(pieces[i], after) + " is in the source"); (void)ti;
   }
   if (!lost && want >= 0 && after != want) {
